@@ -48,6 +48,7 @@ type sessEnv struct {
 	isOpen bool
 	api    *apiEnv // l1_api.go: the real HTTP API over the current stream object (nil until an api-* op needs it)
 	ab     *apiBus // l1_api.go: the bus behind it
+	hold   *heldCall // l1_api.go: `hold-next` … `release`: one consumer call kept in flight
 }
 
 func newSessEnv() *sessEnv {
@@ -665,6 +666,7 @@ func (e *sessEnv) scrape() string {
 
 // abort in-flight micro-stepped savers at the end of a case (so no goroutine stays blocked)
 func (e *sessEnv) cleanup() {
+	e.releaseHeld() // l1_api.go: no consumer call stays blocked behind the case
 	e.apiDown()
 	for _, k := range sortedKeys(e.savers) {
 		if e.phase[k] == "" && e.savers[k].rel != nil {
